@@ -253,7 +253,11 @@ func opAllowance(k *xmss.XMSS, op Op) time.Duration {
 	d := 3 * time.Minute
 	if op.Kind == "setindex" {
 		if cur := k.GetIndex(); op.J > cur {
-			d += time.Duration(op.J-cur) * 50 * time.Millisecond
+			rounds := uint64(op.J - cur)
+			if n := uint64(1) << k.GetHeight(); rounds > n {
+				rounds = n // targets beyond the last leaf are refused at once; no legitimate jump is longer than the tree
+			}
+			d += time.Duration(rounds) * 50 * time.Millisecond
 		}
 	}
 	return d
